@@ -9,20 +9,24 @@ From EZ Require Import Base Bytes Types Api Enc Dec Proofs_Bytes Proofs_Lookup P
 Local Open Scope N_scope.
 
 Record parts := mkParts { lp_z : nat; lp_p : N; lp_h : header; lp_d : N; lp_gap : list N;
-                          lp_b0 : N; lp_b1 : N; lp_blocks : N; lp_proc : N; lp_its : list item; lp_tail : list N; lp_fs : list frame }.
+                          lp_b0 : N; lp_b1 : N; lp_blocks : N; lp_proc : N; lp_ez : bool; lp_its : list item; lp_tail : list N; lp_fs : list frame }.
 
 Definition slice (l : list N) (a n : nat) : list N := firstn n (skipn a l).
 
 (* the records one after the other, as items, up to the end marker *)
-Fixpoint collect (fuel : nat) (acc : list item) : RD (list item) :=
+Fixpoint collect (fuel : nat) (acc : list item) : RD (list item * bool) :=
   match fuel with
-  | O => rret (rev acc)
+  | O => rret (rev acc, false)
   | S f =>
       (nchars <- rd_int 1 ;;
-       if (nchars =? 0)%Z then rret (rev acc) else
+       if (nchars =? 0)%Z then rret (rev acc, false) else
        id <- rd_int 1 ;;
-       if (id <? 0)%Z then r <- read_group (new_group [] []) nchars ;; let '(g, _) := r in collect f (IG (- id) g :: acc)
-       else r <- read_param nchars ;; let '(q, _) := r in collect f (IP id q :: acc))%R
+       if (id <? 0)%Z then
+         r <- read_group (new_group [] []) nchars ;;
+         let '(g, nx) := r in if (nx =? 0)%Z then rret (rev (IG (- id) g :: acc), true) else collect f (IG (- id) g :: acc)
+       else
+         r <- read_param nchars ;;
+         let '(q, nx) := r in if (nx =? 0)%Z then rret (rev (IP id q :: acc), true) else collect f (IP id q :: acc))%R
   end.
 
 Section WithOps.
@@ -38,12 +42,12 @@ Definition explain (file : list N) : option parts :=
       match skipn base file with
       | b0 :: b1 :: blocks :: proc :: rest =>
           match collect (S (length rest)) [] (mkStream file (N.of_nat base + 4) rest false) with
-          | Ok (its, st') =>
+          | Ok ((its, ez), st') =>
               let endpos := N.to_nat (st_pos st') in
               let secend := (base + 512 * N.to_nat blocks)%nat in
               match load f_key f_tosize f_div file with
               | Ok s => Some (mkParts z p (with_pz h1 2 0) (h_dstart h1) (slice file (z + 512) (512 * (N.to_nat p - 2)))
-                                      b0 b1 blocks proc its (slice file endpos (secend - endpos)) (frames s))
+                                      b0 b1 blocks proc ez its (slice file endpos (secend - endpos)) (frames s))
               | _ => None
               end
           | _ => None
@@ -77,9 +81,9 @@ Definition cert_flags (file : list N) : list bool :=
   | Some (q, gs, pn, an) =>
       let h := lp_h q in let d := lp_d q in let p := lp_p q in let z := lp_z q in let fs := lp_fs q in
       let h1 := with_pz (with_dstart h d) p (N.of_nat z) in
-      [bstr_eqb (file_of z p h d (lp_gap q) (lp_b0 q) (lp_b1 q) (lp_blocks q) (lp_proc q) (lp_its q) (lp_tail q) fs) file;
+      [bstr_eqb (file_of z p h d (lp_gap q) (lp_b0 q) (lp_b1 q) (lp_blocks q) (lp_proc q) (lp_ez q) (lp_its q) (lp_tail q) fs) file;
        wf_hdr_b h; u16_b d; (2 <=? p) && (p <? 256); nlen (lp_gap q) =? 512 * (p - 2);
-       4 + N.of_nat (items_len (lp_its q)) + 1 + nlen (lp_tail q) =? 512 * lp_blocks q;
+       4 + nlen (chain_of (lp_ez q) (lp_its q)) + nlen (lp_tail q) =? 512 * lp_blocks q;
        (lp_blocks q <? 256) && (lp_proc q <? 256);
        ((lp_b0 q =? 1) && (lp_b1 q =? 80)) || ((lp_b0 q =? 0) && (lp_b1 q =? 0));
        forallb wf_item_b (lp_its q);
@@ -95,7 +99,7 @@ Definition cert_ok_b (file : list N) : bool := negb (nil_b (cert_flags file)) &&
 
 Theorem layout_cert : forall file, cert_ok_b file = true ->
   exists q gs pn an, cert_args file = Some (q, gs, pn, an) /\
-    file = file_of (lp_z q) (lp_p q) (lp_h q) (lp_d q) (lp_gap q) (lp_b0 q) (lp_b1 q) (lp_blocks q) (lp_proc q) (lp_its q) (lp_tail q) (lp_fs q) /\
+    file = file_of (lp_z q) (lp_p q) (lp_h q) (lp_d q) (lp_gap q) (lp_b0 q) (lp_b1 q) (lp_blocks q) (lp_proc q) (lp_ez q) (lp_its q) (lp_tail q) (lp_fs q) /\
     apply_items (lp_its q) [] = Ok gs /\
     load f_key f_tosize f_div file = Ok (cert_state q gs pn an).
 Proof.
@@ -117,7 +121,7 @@ Proof.
   destruct (wf_hdr_b_ok _ H2) as [Wh Wl].
   rewrite <- H1 at 1. unfold cert_state.
   apply (load_layout f_key f_tosize f_div (lp_z q) (lp_p q) (lp_h q) (lp_d q) (lp_gap q) (lp_b0 q) (lp_b1 q) (lp_blocks q) (lp_proc q)
-           (lp_its q) (lp_tail q) (lp_fs q) gs pn an Wh Wl (u16_b_ok _ H3)).
+           (lp_ez q) (lp_its q) (lp_tail q) (lp_fs q) gs pn an Wh Wl (u16_b_ok _ H3)).
   - lia.
   - lia.
   - lia.
